@@ -1459,6 +1459,19 @@ func bodyPrint(fi *FuncInfo) []string {
 			if sel := info.Selections[x]; sel != nil && sel.Kind() == types.FieldVal {
 				set["field:"+x.Sel.Name] = true
 			}
+		case *ast.CompositeLit:
+			// `T{F: v}` writes field F just as `t.F = v` does
+			if t := info.TypeOf(x); t != nil {
+				if _, isStruct := derefUnderStruct(t); isStruct {
+					for _, el := range x.Elts {
+						if kv, ok := el.(*ast.KeyValueExpr); ok {
+							if id, ok := kv.Key.(*ast.Ident); ok {
+								set["field:"+id.Name] = true
+							}
+						}
+					}
+				}
+			}
 		}
 		return true
 	})
@@ -1599,4 +1612,12 @@ func (w *World) isPathToKnown(atom string, known map[string]bool) bool {
 		}
 	}
 	return false
+}
+
+func derefUnderStruct(t types.Type) (*types.Struct, bool) {
+	if p, ok := t.Underlying().(*types.Pointer); ok {
+		t = p.Elem()
+	}
+	st, ok := t.Underlying().(*types.Struct)
+	return st, ok
 }
